@@ -644,6 +644,13 @@ func (b *BloomSearchEngine) copyDataBlock(ctx context.Context, writer io.Writer,
 	// The filter section and the row data are separate extents of the source
 	// file (the source's filters live in its own filter region), so they are
 	// read separately.
+	if block.BloomFilterSize > 0 {
+		// A block without a section never has its offset read (see
+		// validateFilterSection), so only a real section is bounded.
+		if err := checkExtentWithinFile(file, block.BloomFilterOffset, block.BloomFilterSize); err != nil {
+			return fmt.Errorf("invalid block filter section location: %w", err)
+		}
+	}
 	filterSection := make([]byte, block.BloomFilterSize)
 	if block.BloomFilterSize > 0 {
 		if err := readFullAt(file, filterSection, int64(block.BloomFilterOffset)); err != nil {
@@ -656,6 +663,9 @@ func (b *BloomSearchEngine) copyDataBlock(ctx context.Context, writer io.Writer,
 
 	if block.RowDataOffset < 0 || block.RowDataSize < 0 {
 		return fmt.Errorf("invalid row data location (offset %d, size %d)", block.RowDataOffset, block.RowDataSize)
+	}
+	if err := checkExtentWithinFile(file, block.RowDataOffset, block.RowDataSize); err != nil {
+		return fmt.Errorf("invalid row data location: %w", err)
 	}
 	compressed := make([]byte, block.RowDataSize)
 	if err := readFullAt(file, compressed, int64(block.RowDataOffset)); err != nil {
